@@ -4,6 +4,8 @@ CONSTANTS
   Deviations <- DevScratch
   JunkBytes <- MCJunk
   RegistryOps = FALSE
+  Receivers = FALSE
+  OpSet <- AllOps
 CHECK_DEADLOCK FALSE
 VIEW ViewNoHist
 INVARIANT FramesRight
